@@ -16,7 +16,7 @@ RULE = ('array level: shapes (n,) and (n,m) with n*m<=4; rates: ALL assignments 
         '{0,1e-9,0.5,10} x every count assignment over {0,1,3} of 2x1, 1x2 and 2x2 space-magnitude grids with real '
         'forecasts/catalogs (scripted numpy.random so the rejection loop is owned); the simulated array is recorded and '
         'its test-distribution entry recomputed. A pair is non-trivial iff some count is >1, some rate is 0, or no bin '
-        'is active; distinct by construction.')
+        'is active; distinct by construction. Structured large arrays: 60 / 600 / 12000 bins (shape n/20 x 20, C and F order), rates cycling over 3 alphabets x 4 count patterns.')
 ASSUMPTIONS = ['the stated formula ln(1-exp(-rate)) is conceded its own double-precision conditioning: 4*eps/rate absolute per active bin',
                'reference = sum ln(-expm1(-rate)) over active bins + sum(-rate) over inactive; Brier = -2/N sum (1-exp(-rate) - '
                '[active])^2; tolerance 1e-10 relative to the sum of absolute terms',
@@ -41,6 +41,10 @@ def cases(tier, seed):
         rl = [list(r) for r in itertools.product(ra, repeat=n) if any(x > 0 for x in r)]
         for chunk in space.chunks(rl, 4):
             yield dict(kind='public', shape=list(shape), rates=chunk)
+    # structured LARGE arrays (hundreds to thousands of active bins: products of probabilities leave the double range)
+    for n in (60, 600, 12000):
+        for rp in range(3):
+            yield dict(kind='arraylarge', shape=[n // 20, 20], n=n, rpat=rp)
     if tier == 'quick':
         extra = [1e-6, 0.1, 3.0, 50.0][seed % 4]
         rl = [list(r) for r in itertools.product([0.0, extra, 1.0], repeat=4)]
@@ -230,12 +234,50 @@ def run_public(case, failures, hsh):
     return evals, nontriv, states
 
 
+LARGE_RATES = [[1e-9, 1e-6, 1e-3, 0.01, 0.5, 1.0, 10.0], [1e-9], [0.1, 0.0, 2.0]]
+
+
+def run_arraylarge(case, failures, hsh):
+    from csep.core import binomial_evaluations as be, brier_evaluations as br
+    n, shape = case['n'], tuple(case['shape'])
+    alpha = LARGE_RATES[case['rpat']]
+    rates = [alpha[i % len(alpha)] for i in range(n)]
+    evals = 0
+    for cp in range(4):
+        counts = [[1, (2 if i % 3 == 0 else 0), 0, (1 if (i < n // 2 and rates[i] > 0) else 0)][cp] for i in range(n)]
+        cls = cls_of(rates, counts) + ',many-bins'
+        rep = dict(kind='arraylarge', shape=list(shape), n=n, rpat=case['rpat'])
+        for lay in ('C', 'F'):
+            f = numpy.array(rates, dtype=float).reshape(shape)
+            c = numpy.array(counts, dtype=float).reshape(shape)
+            if lay == 'F':
+                f, c = numpy.asfortranarray(f), numpy.asfortranarray(c)
+            try:
+                got = float(be.binary_joint_log_likelihood_ndarray(f, c))
+                want, mag = ref_binary(rates, counts)
+                evals += 1
+                hsh.update(repr(got).encode())
+                if not same(got, want, mag):
+                    failures.append(Fail(f'binomial_evaluations.binary_joint_log_likelihood_ndarray|differs-from-definition|{cls}',
+                                         f'got {got!r}, definition gives {want!r} for {n} bins, rates cycling over {alpha}, count pattern {cp} ({sum(1 for w in counts if w > 0)} active bins), layout {lay}', rep))
+                got = float(br._brier_score_ndarray(f, c))
+                evals += 1
+                if not same(got, rs.brier(rates, counts), 2.0):
+                    failures.append(Fail(f'brier_evaluations._brier_score_ndarray|differs-from-definition|{cls}',
+                                         f'got {got!r}, definition gives {rs.brier(rates, counts)!r} for {n} bins, rates cycling over {alpha}, count pattern {cp}', rep))
+            except Exception as e:
+                failures.append(Fail(f'binomial_evaluations.binary_joint_log_likelihood_ndarray|{type(e).__name__}|{cls}', f'{type(e).__name__}: {e} n={n}', rep))
+    return evals, 4, 4
+
+
 def run_case(case):
     failures = []
     hsh = hashlib.sha1()
     numpy.random.seed(97531)
     k = case['kind']
-    if k == 'array':
+    if k == 'arraylarge':
+        evals, nontriv, states = run_arraylarge(case, failures, hsh)
+    elif k == 'array':
         evals, nontriv, states = run_array(case, failures, hsh)
     elif k == 'array1':
         from csep.core import binomial_evaluations as be, brier_evaluations as br
@@ -269,6 +311,6 @@ def run_case(case):
         if f['signature'] not in seen:
             seen.add(f['signature'])
             uniq.append(f)
-    sample = dict(kind=k, shape=case['shape'], rates=(case['rates'][0] if k in ('array', 'public') else case['rates']))
+    sample = dict(case) if k == 'arraylarge' else dict(kind=k, shape=case['shape'], rates=(case['rates'][0] if k in ('array', 'public') else case['rates']))
     return result(evals=evals, states=states, transitions=evals, nontrivial=nontriv, failures=uniq, digest=hsh.hexdigest(),
                   sample=sample)
